@@ -5,7 +5,7 @@ from props import judges
 from props.common import TRUSTED_BASE, ASSUMPTIONS
 
 ID = "C07"
-LEAN_MODULES = ["LexVerif.Props.C07", "LexVerif.Props.RoundNE", "LexVerif.Props.Literals.WriteFloatRadix", "LexVerif.Props.Literals.WriteFloatShared", "LexVerif.Props.Literals.WriteFloatWrite"]
+LEAN_MODULES = ["LexVerif.Props.Literals.UtilLibm", "LexVerif.Props.C07", "LexVerif.Props.RoundNE", "LexVerif.Props.Literals.WriteFloatRadix", "LexVerif.Props.Literals.WriteFloatShared", "LexVerif.Props.Literals.WriteFloatWrite"]
 GEN = ["literals"]
 TRUSTED = TRUSTED_BASE + [
     "write-float/src/radix.rs runs in hardware floating point of the float's own type (f32 is NOT widened). The WHOLE function is modelled in Lean "
@@ -43,7 +43,8 @@ GENERIC = [r for r in range(3, 37) if r not in (4, 8, 10, 16, 32)]
 
 
 def feature_sets(tier):
-    return ["radix"] if tier == "quick" else ["radix", "radix+format", "compact+radix"]
+    # the no_std build uses lexical-util's own libm (floor) inside radix.rs: it is a different arithmetic tie
+    return ["radix", "nostd+compact+radix+format"] if tier == "quick" else ["radix", "radix+format", "compact+radix", "nostd+compact+radix+format"]
 
 
 def int_cases(rng, ty, r):
